@@ -427,13 +427,13 @@ theorem loop_agree (fuel : Nat) : ∀ (first : Bool) (evs : List DecProg.Ev) (st
       by_cases hsz : b0 ≠ 12 ∧ b0 ≠ 14
       · simp only [eq_true hsz, if_true]
         cases first
-        · intro _ hc; simp [runExactR] at hc
+        · intro _ hc; simp [runExactR, DecProg.Err.endsIteration] at hc
         · exact agree_fail _ _ _ (by simp [runExactR])
       · simp only [eq_false hsz, if_false]
         refine agree_read _ _ _ rest1 (fun e => ?_) (fun hlh => ?_)
-        · cases first
-          · exact ⟨_, rfl, Or.inr rfl⟩
-          · exact ⟨_, rfl, Or.inl (by simp)⟩
+        · cases first <;> cases e <;> first
+            | exact ⟨_, rfl, Or.inr rfl⟩
+            | exact ⟨_, rfl, Or.inl (by simp)⟩
         · have hb2 : IsBytes (rest1.drop (b0 - 1)) := isBytes_drop hb1 _
           generalize rest1.take (b0 - 1) = B at *
           generalize rest1.drop (b0 - 1) = R2 at *
@@ -441,13 +441,13 @@ theorem loop_agree (fuel : Nat) : ∀ (first : Bool) (evs : List DecProg.Ev) (st
           by_cases htag : (B.drop 7).take 4 ≠ Fit.Gen.Reader.dataTypeFIT
           · simp only [eq_true htag, if_true]
             cases first
-            · exact agree_unclean _ _ _ (Or.inr (by simp [runExactR]))
+            · exact agree_unclean _ _ _ (Or.inr (by simp [runExactR, DecProg.Err.endsIteration]))
             · exact agree_fail _ _ _ (by simp [runExactR])
           · simp only [eq_false htag, if_false]
             by_cases hds : DecProg.le32 (B.drop 3) = 0
             · simp only [hds, if_true]
               cases first
-              · exact agree_unclean _ _ _ (Or.inr (by simp [runExactR]))
+              · exact agree_unclean _ _ _ (Or.inr (by simp [runExactR, DecProg.Err.endsIteration]))
               · exact agree_fail _ _ _ (by simp [runExactR])
             · simp only [hds, if_false, or_true, if_true, emit_none]
               have hle : DecProg.le32 (B.drop 3) = Raw.le32 (B.drop 3) := by
@@ -474,7 +474,8 @@ theorem loop_agree (fuel : Nat) : ∀ (first : Bool) (evs : List DecProg.Ev) (st
       simp only [List.isEmpty_nil, if_true, runExactR]
       cases first
       · have hs := hfirst rfl
-        simp only [Bool.false_eq_true, if_false, hs, ne_eq, not_false_eq_true, and_self, if_true]
+        simp only [Bool.false_eq_true, if_false, hs, ne_eq, not_false_eq_true, and_self, if_true, Bool.false_or,
+          DecProg.Err.endsIteration, Bool.not_true]
         unfold Agree
         simp only [runExactR, Raw.done, seqCount_reverse]
         intro _ _
